@@ -53,7 +53,11 @@ def lehmerWhile (p : LehmerParams) (n : Nat) : Nat → Int → List UInt8 → Op
     else some ba
 
 /-- `Lehmer(a, mod, bits).RandomBits(n, seed=seed)` for parameters the constructor accepted,
-with non-termination explicit. -/
+with non-termination explicit.  `.diverges` for `bits = 0` is BY DEFINITION here; that it is the
+behaviour of the literal loop `lehmerWhile` (`= .diverges ↔ ∀ fuel, lehmerWhile … = none`,
+`= .value r ↔ ∃ fuel, lehmerWhile … = some ba ∧ finishLE ba n = r`) is proved in
+Props/C20TotalLink.lean.  INTEGER seed only: the rejection loop by which the unseeded call draws
+its seed is not modelled. -/
 def lehmerOutcome (p : LehmerParams) (n : Nat) (seed : Int) : Outcome :=
   if n = 0 then .value 0
   else if p.mod = 0 then .raises .zeroDivision
